@@ -3,6 +3,7 @@
 -/
 import MocVerif.Lemmas.Hints
 import MocVerif.Lemmas.LastExact
+import MocVerif.Lemmas.Query
 import MocVerif.Model.Params
 
 namespace Moc.C04
@@ -71,6 +72,23 @@ example : ¬ (⟨0, [(0, 5)], some (0, 10), 0, none, []⟩ : Src).LastExact := b
   simp at hc; subst hc; simp at he
 example : (⟨0, [(0, 5), (7, 10)], some (2, 10), 0, none, []⟩ : Src).LastExact := by
   intro q hq; exact ⟨(7, 10), rfl, by cases hq; rfl⟩
+
+/-- **`overlapped_by`** (the iterator behind `overlapped_by_iter`; repaired `size_hint`, /repo 7641c6f): it yields a sub-list
+    of the left ranges, so — one left range being held by the iterator — the upper bound of the left source after its first
+    `next()`, plus one, bounds what it yields, for every pair of canonical operands and every consistent left source
+    (the former hint forwarded the bounds of the left source as they were: upper bound one too small, lower bound
+    unjustified). -/
+theorem overlapped_by_hint_sound (l r : Src) (hl : l.HintOkAll) (cl : Canon l.items) (cr : Canon r.items) :
+    overlappedBy l.items r.items = l.items.filter (meetsB r.items) ∧
+    ∀ n, l.afterNext.hi = some n → (overlappedBy l.items r.items).length ≤ n + 1 := by
+  have e := Moc.overlappedBy_eq l.items r.items cl cr
+  have b := l.afterNext_bounds hl
+  rw [tail_length] at b
+  refine ⟨e, fun n hn => ?_⟩
+  have hlen : (overlappedBy l.items r.items).length ≤ l.items.length := by
+    rw [e]; exact List.length_filter_le _ _
+  have := b.2 n hn
+  omega
 
 /-- The serialiser's decision (`size_hint` min = max ⇒ stream with a pre-computed `NAXIS2`) is sound:
     whenever a consistent source advertises equal bounds, that number IS the number of ranges. -/
